@@ -21,6 +21,14 @@ func tryInl(body, catch, fin []*Node) *Node {
 	return n
 }
 func ifp(k int, b ...*Node) *Node { return &Node{Op: nIf, K: k, Body: b} }
+func edit(k, variant int) *Node { return &Node{Op: nEdit, K: k, V: variant} }
+func edits(k int) []*Node {
+	var l []*Node
+	for v := 0; v < 12; v++ {
+		l = append(l, edit(k, v))
+	}
+	return l
+}
 func xfer(to, amt, fl int, cb []*Node) *Node {
 	return &Node{Op: nNative, Fl: fl, Nat: &NatOp{Kind: natTransfer, To: to, Amt: amt, HasCb: cb != nil, Cb: cb}}
 }
@@ -221,6 +229,14 @@ func corpus() [][]txPlan {
 		one(call(0, 15, designate(8, 1), try(L(designate(8, 2)), none, nil))),
 		one(bothWays(1, func() []*Node { return L(setWl(1, 300), setWl(2, 10), setWl(1, 301)) })...),
 		one(call(0, 15, setWl(0, 5), setWl(3, 7), try(L(call(1, 15, delWl(0), setWl(2, 9), throw())), none, nil), delWl(3))),
+		// stored values are immutable: a value read from storage (Get / Find iterator) goes through a byte operation
+		// that might alias it (CAT with an empty operand, SUBSTR/LEFT/RIGHT of full length, CONVERT, MEMCPY, PACK), the
+		// result is edited in place (SETITEM, REVERSEITEMS, MEMCPY) and dropped — then the execution FAULTs, throws under
+		// the caller's TRY, or HALTs without any Put: storage, the MPT and a restarted node must show the old bytes
+		{planOf(L(call(0, 15, put(1, 7), put(2, 8)))), planOf(L(call(0, 15, edit(1, 0), abort()))), planOf(L(call(1, 15, put(0, 1))))},
+		{planOf(L(call(0, 15, put(1, 7)))), planOf(L(call(1, 15, try(L(call(0, 15, edit(1, 0), edit(1, 11), throw())), L(notify(1)), nil))))},
+		{planOf(L(call(0, 15, put(1, 7), put(2, 8), put(3, 9)))), planOf(L(call(0, 15, edits(1)...), call(0, 15, edits(2)...))), planOf(L(call(0, 15, append(edits(3), abort())...)))},
+		one(call(2, 15, append(append(L(put(0, 5)), edits(0)...), call(2, 5, edits(0)...))...)),
 		// GasPerBlock set twice for the same block index, the second time in an execution that is rolled back (a
 		// callee that throws under the caller's TRY; a later transaction that FAULTs): the record of the first set
 		// must survive in the cache (the list of records is append-only: a layer's copy must be its own)
